@@ -1,7 +1,7 @@
 (* C13: dump followed by load, at the level of the parsed dictionaries, is the identity on
    id, description, shape and extent (up to the unit rewrite), for one area and for files of many areas. *)
 From Coq Require Import Reals ZArith Bool List Lra Lia.
-From PR Require Import Base.Num Base.RNum Model.AreaConfig Model.AreaYaml Proofs.C13_base.
+From PR Require Import Base.Num Base.RNum Model.AreaConfig Model.AreaYaml Proofs.C13_base Proofs.C13_sets.
 Import ListNotations.
 Open Scope R_scope.
 
@@ -17,10 +17,11 @@ Section YamlProofs.
   Definition area_ok (a : arearec) : Prop :=
     let '(geo, cunits, fac) := crs_facts (proj_entry a) in
     (1 <= fst (r_shape a))%Z /\ (1 <= snd (r_shape a))%Z /\
+    (let '(e0, e1, e2, e3) := r_ext a in e0 < e2 /\ e1 < e3) /\
     (geo = true <-> cunits = Cdeg) /\
     match dumped_units a with
     | None => True
-    | Some u => geo = false /\ cunits = Cm /\ (metre_tok u \/ u = UTkm)     (* the dict was written without its units: metres *)
+    | Some u => geo = false /\ cunits = Cm /\ (metre_tok u \/ (u = UTkm /\ 0 < fac Ckm))   (* the dict was written without its units: metres *)
     end.
   Definition loaded_extent (a : arearec) : R * R * R * R :=
     match dumped_units a with
@@ -58,9 +59,9 @@ Section YamlProofs.
     cbn [r_id r_desc r_crs r_epsg r_units r_shape r_ext fst snd].
     set (pe := match epsg with Some n => PEpsg n | None => PDict crs end).
     destruct (crs_facts pe) as [[geo cunits] fac] eqn:Hf.
-    intros (Hh & Hw & Hwf & Hu).
+    intros (Hh & Hw & (Hx & Hy) & Hwf & Hu).
     assert (Hcreate : forall du ext',
-      match du with None => True | Some u => geo = false /\ cunits = Cm /\ (metre_tok u \/ u = UTkm) end ->
+      match du with None => True | Some u => geo = false /\ cunits = Cm /\ (metre_tok u \/ (u = UTkm /\ 0 < fac Ckm)) end ->
       ext' = match du with Some UTkm => scale4 (fac Ckm) (e0, e1, e2, e3) | _ => (e0, e1, e2, e3) end ->
       create_area_def RO (fun _ => None) (fun _ => None) fac geo cunits
         {| a_width := None; a_height := None; a_extent := Some (e0, e1, e2, e3, du); a_shape := Some (IZR h, IZR w);
@@ -69,11 +70,11 @@ Section YamlProofs.
       cbn [a_width a_height a_extent a_shape a_ul a_center a_resolution a_radius a_units bind].
       rewrite round_shape_R. cbn [fst snd bind]. rewrite !round_dim_exact.
       destruct du as [u|].
-      - destruct Hdu as (-> & -> & [Hm | ->]).
+      - destruct Hdu as (-> & -> & [Hm | [-> Hk]]).
         + rewrite !(conv_extent_metre _ _ _ u) by assumption. cbn [bind convert_units fst snd strip].
-          rewrite nz_shape by assumption. destruct Hm as [-> | [-> | ->]]; reflexivity.
-        + rewrite !conv_extent_km. cbn [bind convert_units fst snd strip scale4]. now rewrite nz_shape by assumption.
-      - rewrite !conv_extent_default by assumption. cbn [bind convert_units fst snd strip]. now rewrite nz_shape by assumption. }
+          rewrite make_area_ok by assumption. destruct Hm as [-> | [-> | ->]]; reflexivity.
+        + rewrite !conv_extent_km. cbn [bind convert_units fst snd strip scale4]. rewrite make_area_ok by (assumption || nra). reflexivity.
+      - rewrite !conv_extent_default by assumption. cbn [bind convert_units fst snd strip]. now rewrite make_area_ok by assumption. }
     destruct epsg as [n|]; [|destruct units as [u|]]; subst pe.
     - cbv [load_one capture_subarguments dget dpop validate_sub_arg_list mem key_eqb existsb forallb map filter fst snd negb
            andb orb app fold_left bind as_pair as_quad num]. cbn [ofZ RO]. rewrite Hf. do 2 f_equal. exact (Hcreate None _ I eq_refl).
